@@ -7,10 +7,15 @@ M = "harness.c17"
 
 def _cfg(tier):
   if tier == "quick":
-    return [("d2", dict(C17_DEPTH=2, C17_NV=2, C17_NVAL=3, C17_ARITY=3, C17_SWAP=1))]
+    return [
+        ("d2", dict(C17_DEPTH=2, C17_NV=2, C17_NVAL=2, C17_ARITY=3, C17_SWAP=0)),
+        ("d2swap", dict(C17_DEPTH=2, C17_NV=2, C17_NVAL=2, C17_ARITY=2, C17_SWAP=1)),
+        ("d3narrow", dict(C17_DEPTH=3, C17_NV=2, C17_NVAL=2, C17_ARITY=2, C17_SWAP=0, C17_NARROW=2)),
+    ]
   return [
-      ("d2", dict(C17_DEPTH=2, C17_NV=3, C17_NVAL=3, C17_ARITY=3, C17_SWAP=1)),
-      ("d3", dict(C17_DEPTH=3, C17_NV=2, C17_NVAL=2, C17_ARITY=2, C17_SWAP=0)),
+      ("d2-3v2", dict(C17_DEPTH=2, C17_NV=3, C17_NVAL=2, C17_ARITY=3, C17_SWAP=1)),
+      ("d2-2v3", dict(C17_DEPTH=2, C17_NV=2, C17_NVAL=3, C17_ARITY=3, C17_SWAP=1)),
+      ("d3", dict(C17_DEPTH=3, C17_NV=2, C17_NVAL=2, C17_ARITY=2, C17_SWAP=0, C17_NARROW=1)),
   ]
 
 
@@ -18,8 +23,11 @@ def jobs(tier):
   out = []
   for name, params in _cfg(tier):
     t = 400 if tier == "quick" else 2400
-    out.append(Job("build-" + name, M, "h_build", params, shards=16, timeout=t))
-    out.append(Job("simplify-" + name, M, "h_simplify", params, shards=16, timeout=t))
+    small = name == "d2swap"
+    out.append(Job("build-" + name, M, "h_build", params,
+                   shards=7 if small else 31, timeout=t))
+    out.append(Job("simplify-" + name, M, "h_simplify", params,
+                   shards=11 if small else 47, timeout=t))
   return out
 
 
